@@ -157,6 +157,7 @@ func TestC03_P_PathSelector(t *testing.T) {
 		// half of the stores pick what they serve from the request context (tenant, session, credentials): every load of
 		// the walk, also those made later by a matched node, has to carry the context the traversal was configured with
 		st.RequireSession = rapid.Bool().Draw(t, "sessionStore")
+		st.HonorCtx = true // (loads with a context that is already done are refused)
 		segs, nodes := genWalk(t, root)
 		target := nodes[len(nodes)-1]
 		if rapid.IntRange(0, 2).Draw(t, "noiseBefore") == 0 {
